@@ -6,11 +6,15 @@ import Mathlib.Tactic.Linarith
 /-
 # C19 — resampling never invents, loses or unpairs data
 
-Theorems about the model `Model/Resample.lean` / `Model/Rng.lean`, for **every** element type, data list,
-generator state and fuel.  `… = some …` hypotheses: the theorem covers every run that returns; the `_none`
-theorems show that the only ways not to return are an empty input (outside the property: lengths ≥ 1),
-unequal lengths in `shuffle_two` (the `assert_eq!`), or Lemire's rejection loop exhausting its fuel at some
-generator state (`FuelExhausted`; termination of that loop for every state is not proved, see NOT_PROVED).
+Theorems about the model `Model/Resample.lean` / `Model/Rng.lean`, for every element type, data list, generator state
+and fuel.
+
+PARTIAL CORRECTNESS is marked in the names: `bootstrap_spec_partial`, `shuffle_perm_partial`, `shuffle_two_pairs_partial`
+take a hypothesis `… = some …` ("whenever the call returns").  What is missing for the unconditional statement is the
+termination of Lemire's rejection loop for every generator state (not proved; NOT_PROVED).  The termination-relative
+totality is in `Props/C19Run.lean`: each function EQUALS a sequence of index draws of the run itself followed by a total
+post-processing, returns iff each of its own draws returns within the fuel, and `*_none` locates the failing draw at a
+state of the run.  `jackknife_spec` and `length_one` are unconditional.
 -/
 namespace Cv.C19
 open Cv Cv.Rng Cv.Resample
@@ -138,33 +142,13 @@ theorem u64LessThan_accepts {fuel : Nat} {m : UInt64} {g g' : Rng} {v : UInt64}
     (h : u64LessThan fuel m g = some (v, g')) : ∃ r : UInt64, lemireAccept m r ∧ v = mulHi r m :=
   Rng.u64LessThan_spec h
 
-/-! ## Failure sources -/
-
-/-- Lemire's loop runs out of fuel for bound `n` at some generator state. -/
-def FuelExhausted (fuel : Nat) (n : Nat) : Prop := ∃ g : Rng, u64LessThan fuel (UInt64.ofNat n) g = none
-
-theorem drawFails_fuel {fuel : Nat} {n : Nat} (hn : 1 ≤ n) (hn' : n < 2 ^ 63)
-    (h : DrawFails fuel ((n : Int) - 1)) : FuelExhausted fuel n := by
-  obtain ⟨g, hg⟩ := h
-  unfold DiscreteUniform.sampleInt at hg
-  split at hg
-  · simp at hg
-  · rw [i64InRange_eq_none_iff] at hg
-    rcases hg with hg | hg
-    · exfalso; apply hg; omega
-    · refine ⟨g, ?_⟩
-      have : asU64 ((n : Int) - 1 + 1 - 0) = UInt64.ofNat n := by
-        unfold asU64
-        have : ((n : Int) - 1 + 1 - 0) % 2 ^ 64 = (n : Int) := by
-          rw [Int.emod_eq_of_lt (by omega) (by omega)]; omega
-        rw [this]; rfl
-      rw [← this]; exact hg
-
 /-! ## bootstrap -/
 
-/-- `bootstrap` returns exactly `n_bootstrap` resamples, each of the original length, and every element of
+/-- PARTIAL (whenever the call returns; full statement = the same conclusion for every state, missing: termination of
+Lemire's loop; termination-relative form: `bootstrap_eq`, `bootstrap_isSome_iff` in `Props/C19Run.lean`).
+`bootstrap` returns exactly `n_bootstrap` resamples, each of the original length, and every element of
 every resample is `data[i]` for an index `i < n` (nothing invented). -/
-theorem bootstrap_spec {fuel : Nat} {d : List α} {nb : Nat} {g g' : Rng} {rs : List (List α)}
+theorem bootstrap_spec_partial {fuel : Nat} {d : List α} {nb : Nat} {g g' : Rng} {rs : List (List α)}
     (h : bootstrap fuel d nb g = some (rs, g')) :
     rs.length = nb ∧ ∀ r ∈ rs, r.length = d.length ∧
       ∀ j (hj : j < r.length), ∃ i, ∃ hi : i < d.length, r[j] = d[i] := by
@@ -179,16 +163,6 @@ theorem bootstrap_spec {fuel : Nat} {d : List α} {nb : Nat} {g g' : Rng} {rs : 
     intro j hj
     obtain ⟨i, hi, he⟩ := h2 j hj
     exact ⟨i, by simpa using hi, by simpa using he⟩
-
-/-- `bootstrap` of a non-empty input fails only if Lemire's loop runs out of fuel (no index panic). -/
-theorem bootstrap_none {fuel : Nat} {d : List α} {nb : Nat} {g : Rng} (hd : d ≠ []) (hlen : d.length < 2 ^ 63)
-    (h : bootstrap fuel d nb g = none) : FuelExhausted fuel d.length := by
-  unfold bootstrap at h
-  have hne : d.isEmpty = false := by simpa using hd
-  rw [hne] at h
-  simp only [Bool.false_eq_true, if_false] at h
-  have hpos : 1 ≤ d.length := List.length_pos_iff.2 hd
-  exact drawFails_fuel hpos hlen (by simpa using bootLoop_none h)
 
 example : bootstrap 0 [(7 : Nat)] 2 (Rng.ofSeed 1) = some ([[7], [7]], Rng.ofSeed 1) := by decide
 
@@ -206,8 +180,9 @@ example : jackknife [1, 2, 3] = some [[2, 3], [1, 3], [1, 2]] := by decide
 
 /-! ## shuffle -/
 
-/-- `shuffle` returns a permutation of its input (same multiset, same length). -/
-theorem shuffle_perm {fuel : Nat} {d r : List α} {g g' : Rng} (h : shuffle fuel d g = some (r, g')) :
+/-- PARTIAL (whenever the call returns; see `shuffle_eq`, `shuffle_isSome_iff` in `Props/C19Run.lean`).
+`shuffle` returns a permutation of its input (same multiset, same length). -/
+theorem shuffle_perm_partial {fuel : Nat} {d r : List α} {g g' : Rng} (h : shuffle fuel d g = some (r, g')) :
     r.Perm d := by
   unfold shuffle at h
   split at h
@@ -218,19 +193,10 @@ theorem shuffle_perm {fuel : Nat} {d r : List α} {g g' : Rng} (h : shuffle fuel
     rw [← he.1]
     simpa using shuffleLoop_perm hl
 
-/-- `shuffle` of a non-empty input fails only if Lemire's loop runs out of fuel (no index panic). -/
-theorem shuffle_none {fuel : Nat} {d : List α} {g : Rng} (hd : d ≠ []) (hlen : d.length < 2 ^ 63)
-    (h : shuffle fuel d g = none) : FuelExhausted fuel d.length := by
-  unfold shuffle at h
-  have hne : d.isEmpty = false := by simpa using hd
-  rw [hne] at h
-  simp only [Bool.false_eq_true, if_false, Option.map_eq_none_iff] at h
-  have hpos : 1 ≤ d.length := List.length_pos_iff.2 hd
-  exact drawFails_fuel hpos hlen (shuffleLoop_none (by simp) h)
-
-/-- `shuffle_two` applies one common permutation to both arrays: the list of pairs of the result is a
+/-- PARTIAL (whenever the call returns; see `shuffle_two_eq`, `shuffle_two_isSome_iff` in `Props/C19Run.lean`).
+`shuffle_two` applies one common permutation to both arrays: the list of pairs of the result is a
 permutation of the list of pairs of the input; in particular each array is permuted. -/
-theorem shuffle_two_pairs {fuel : Nat} {a ra : List α} {b rb : List β} {g g' : Rng}
+theorem shuffle_two_pairs_partial {fuel : Nat} {a ra : List α} {b rb : List β} {g g' : Rng}
     (h : shuffleTwo fuel a b g = some (ra, rb, g')) :
     (ra.zip rb).Perm (a.zip b) ∧ ra.Perm a ∧ rb.Perm b := by
   unfold shuffleTwo at h
@@ -252,16 +218,6 @@ theorem shuffle_two_pairs {fuel : Nat} {a ra : List α} {b rb : List β} {g g' :
         rwa [List.map_fst_zip (by omega), List.map_fst_zip (by omega)] at this
       · have := hp'.map Prod.snd
         rwa [List.map_snd_zip (by omega), List.map_snd_zip (by omega)] at this
-
-/-- `shuffle_two` of non-empty inputs of equal length fails only if Lemire's loop runs out of fuel. -/
-theorem shuffle_two_none {fuel : Nat} {a : List α} {b : List β} {g : Rng} (hd : a ≠ []) (hab : a.length = b.length)
-    (hlen : a.length < 2 ^ 63) (h : shuffleTwo fuel a b g = none) : FuelExhausted fuel a.length := by
-  unfold shuffleTwo at h
-  have hne : a.isEmpty = false := by simpa using hd
-  rw [if_neg (by simpa using hab), hne] at h
-  simp only [Bool.false_eq_true, if_false, Option.map_eq_none_iff] at h
-  have hpos : 1 ≤ a.length := List.length_pos_iff.2 hd
-  exact drawFails_fuel hpos hlen (shuffleTwoLoop_none (by simp) (by simp [hab]) h)
 
 /-- Unequal lengths: `shuffle_two` panics (`assert_eq!`). -/
 theorem shuffle_two_unequal {fuel : Nat} {a : List α} {b : List β} {g : Rng} (h : a.length ≠ b.length) :
